@@ -7,6 +7,18 @@ sys.path.insert(0, V)
 from vf import selftest
 only = sys.argv[1:]
 rows = []
+if only == ['--table']:
+    # rebuild RESULTS.md from the recorded outcomes (no check is re-run)
+    for name in sorted(os.listdir(os.path.join(V, 'seeded'))):
+        mp = os.path.join(V, 'seeded', name, 'meta.json')
+        if os.path.exists(mp):
+            meta = json.load(open(mp))
+            det = meta.get('detected_by') or {}
+            rows.append((name, meta['property'], ('DETECTED' if det.get('detected') else 'exit %s' % det.get('exit')) + ' — ' +
+                         '; '.join(x.replace('obligation:', '').split('::')[-1] for x in (det.get('failed') or [])[:4] if x),
+                         (meta.get('summary') or '')[:110]))
+    only = []
+    os.listdir = lambda *_a, **_k: []
 for name in sorted(os.listdir(os.path.join(V, 'seeded'))):
     mp = os.path.join(V, 'seeded', name, 'meta.json')
     if not os.path.exists(mp) or (only and name not in only):
